@@ -1,0 +1,35 @@
+//go:build verif
+
+package sessions
+
+// Machine-checked contracts (govc, see /verif/DESIGN.md). Comment-only file.
+
+//@ fileprops C30 C24
+
+// The cache of session-token verdicts: a token's signature, issuer and delegation chain are
+// verified once (authOnMiss) and the verdict is remembered under the token's hash. What is
+// remembered must be the verdict - the error with the token - so that a token rejected once is
+// rejected on every later look-up too, and the caller of a miss gets that same verdict.
+
+//@ ghost field missVerdict(x int) error
+
+//@ callrule c30_verdict_of_the_miss in (*ObjectSessionsCache).AuthenticateTokenV1, (*ObjectSessionsCache).AuthenticateTokenV2
+//@   callee dynamic:*
+//@   assigns missVerdict
+//@   defines missVerdict(0) == res1
+
+//@ callrule c30_entry_remembers_the_verdict in (*ObjectSessionsCache).AuthenticateTokenV1, (*ObjectSessionsCache).AuthenticateTokenV2
+//@   callee (*lru.Cache*).Add
+//@   requires [negative_verdict_is_cached_as_negative] a1.err == missVerdict(0)
+
+//@ ghost pred cacheHit() bool
+//@ ghost pred cachedVerdict() error
+
+//@ callrule c30_look_up in (*ObjectSessionsCache).AuthenticateTokenV1, (*ObjectSessionsCache).AuthenticateTokenV2
+//@   callee (*lru.Cache*).Get
+//@   defines res1 == cacheHit() && res0.err == cachedVerdict()
+
+//@ func (*ObjectSessionsCache).AuthenticateTokenV1
+//@   ensures [caller_gets_the_remembered_or_the_fresh_verdict] (cacheHit() ==> err == cachedVerdict()) && (!cacheHit() ==> err == missVerdict(0))
+//@ func (*ObjectSessionsCache).AuthenticateTokenV2
+//@   ensures [caller_gets_the_remembered_or_the_fresh_verdict] (cacheHit() ==> err == cachedVerdict()) && (!cacheHit() ==> err == missVerdict(0))
